@@ -139,4 +139,9 @@ def appendSettings (s : Settings) : Option Bytes :=
     | none => none
     | some h => some (h ++ p)
 
+/-- a well-formed `settingsFrame`: `Other` is a map (distinct keys) that does not contain the two
+identifiers the struct has dedicated fields for. -/
+def WfSettings (s : Settings) : Prop :=
+  (s.other.map (·.1)).Nodup ∧ ∀ p ∈ s.other, p.1 ≠ settingExtendedConnect ∧ p.1 ≠ settingDatagram
+
 end Req.H3.Frame
